@@ -10,7 +10,8 @@ from vf.model import walk
 from vf.runner import Fail
 from vf.to_json import to_json
 
-RULE = ('Hypothesis: well-formed documents (parser-level model generator of C05) with 1-4 structural '
+RULE = ('Exhaustive single faults on one canonical document with every element kind (each JSON slot x '
+        'delete / retype / hostile string / retag / empty / duplicate); plus Hypothesis: well-formed documents (parser-level model generator of C05) with 1-4 structural '
         'mutations at drawn JSON paths (delete a key/item, retype a value, retag <class>, invalid '
         'identifier, empty list, duplicate an item, replace a subtree by arbitrary JSON), and '
         'arbitrary JSON values as whole documents; oracle: process() returns a FileContents or '
@@ -101,6 +102,90 @@ def check_bad_out_event(case):
     raise Fail(f'a document with an out event {case["event"]} was accepted', 'bad-out-accepted')
 
 
+# ---- exhaustive single faults on one canonical document that holds every element kind
+
+def canonical_model():
+    ev = lambda n, d, ret, fs: {'name': n, 'dir': d, 'ret': ret, 'formals': [  # noqa: E731
+        {'name': fn, 'type': ft, 'dir': fd} for fn, ft, fd in fs]}
+    port = lambda n, t, d, inj=False: {'name': n, 'type': t, 'dir': d, 'injected': inj}  # noqa: E731
+    itf = {'k': 'interface', 'name': ['IApi'], 'types': [
+        {'k': 'enum', 'name': ['Result'], 'fields': ['Ok', 'Fail']},
+        {'k': 'subint', 'name': ['Small'], 'lo': 0, 'hi': 3},
+        {'k': 'unknown', 'cls': 'int', 'junk': {'name': 'x'}}],
+        'events': [ev('Claim', 'in', ['Result'], [('a', ['Info'], 'in'), ('b', ['My', 'Info'], 'out'),
+                                                  ('c', ['Info'], 'inout')]),
+                   ev('Done', 'out', ['void'], [('d', ['Info'], 'in')])]}
+    ports = [port('api', ['IApi'], 'provides'), port('hw', ['My', 'IApi'], 'requires'),
+             port('cfg', ['IApi'], 'requires', True)]
+    return {'wd': '/w', 'comment': '// c', 'root': [
+        {'k': 'filename', 'name': './x.dzn'}, {'k': 'import', 'name': 'y.dzn'},
+        {'k': 'unknown', 'cls': 'bool', 'junk': {}},
+        {'k': 'extern', 'name': ['Info'], 'value': 'std::string'},
+        {'k': 'ns', 'ids': ['My', 'Sub'], 'elems': [
+            {'k': 'extern', 'name': ['Info'], 'value': 'int'},
+            {'k': 'enum', 'name': ['E'], 'fields': ['A']},
+            {'k': 'subint', 'name': ['S'], 'lo': -1, 'hi': 1},
+            itf,
+            {'k': 'component', 'name': ['Comp'], 'ports': ports},
+            {'k': 'foreign', 'name': ['F'], 'ports': ports[:1]},
+            {'k': 'system', 'name': ['Sys'], 'ports': ports[:2],
+             'instances': [{'name': 'c', 'type': ['Comp']}],
+             'bindings': [{'left': {'port': 'api', 'inst': None}, 'right': {'port': 'api', 'inst': 'c'}}]},
+            {'k': 'ns', 'ids': ['Deep'], 'elems': [{'k': 'raw', 'value': 7}]}]}]}
+
+
+_CANON = []
+HOSTILE_STRINGS = ['', '%', '%s', '100%', '{0}', '{', '}', '\n', 'x' * 300, 'in ', 'IN', 'injected ',
+                   'a.b', '1a', '\\', '\x00', 'void']
+RETYPES = [None, True, 7, 3.5, [], {}, ['x'], {'<class>': 'enum'}, 'str']
+
+
+def single_fault_cases():
+    doc = to_json(canonical_model())
+    slots = mutate_json.paths(doc)
+    for i, (cont, key) in enumerate(slots):
+        yield {'slot': i, 'op': 'delete'}
+        for r in range(len(RETYPES)):
+            yield {'slot': i, 'op': 'retype', 'arg': r}
+        if isinstance(cont[key], str):
+            for h in range(len(HOSTILE_STRINGS)):
+                yield {'slot': i, 'op': 'string', 'arg': h}
+        if key == '<class>':
+            for c in range(len(mutate_json.KNOWN_CLASSES) + 1):
+                yield {'slot': i, 'op': 'retag', 'arg': c}
+        if isinstance(cont[key], list):
+            yield {'slot': i, 'op': 'empty'}
+            yield {'slot': i, 'op': 'dup'}
+
+
+def check_single_fault(case):
+    import copy
+    from dznpy.ast import FileContents
+    if not _CANON:
+        _CANON.append(orjson.dumps(to_json(canonical_model())))
+    doc = orjson.loads(_CANON[0])
+    cont, key = mutate_json.paths(doc)[case['slot']]
+    op = case['op']
+    if op == 'delete':
+        del cont[key]
+    elif op == 'retype':
+        cont[key] = copy.deepcopy(RETYPES[case['arg']])
+    elif op == 'string':
+        cont[key] = HOSTILE_STRINGS[case['arg']]
+    elif op == 'retag':
+        cont[key] = (mutate_json.KNOWN_CLASSES + ['bogus'])[case['arg']]
+    elif op == 'empty':
+        cont[key] = []
+    elif op == 'dup':
+        cont[key] = cont[key] + copy.deepcopy(cont[key])
+    try:
+        res = parse_bytes(orjson.dumps(doc))
+    except allowed_errors():
+        return
+    if not isinstance(res, FileContents):
+        raise Fail(f'process() returned {type(res).__name__}', 'return-type')
+
+
 def nontrivial(case):
     if 'raw' in case:
         return False
@@ -117,6 +202,11 @@ def labels(case):
 
 
 def run(ctx):
+    ctx.enumerate('single_fault_exhaustive', single_fault_cases(), check_single_fault,
+                  nontrivial=lambda c: True, labels=lambda c: ['single-fault-' + c['op']])
+    ctx.extra['exhaustive_part'] = ('every slot of one canonical document holding all element kinds x '
+                                    '{delete, 9 retypings, 17 hostile strings, every class tag, empty / '
+                                    'duplicated list}')
     mutated = st.fixed_dictionaries({'model': gen_doc.doc_model(max_depth=4),
                                      'noise': gen_doc.noise(), 'mutations': mutate_json.mutations})
     raw = gen_doc.json_junk.map(lambda v: {'raw': v})
